@@ -100,7 +100,7 @@ def build_lib(repo=REPO, debug_level=None, asan=True, defines=(), tag=""):
             shutil.rmtree(libdir, ignore_errors=True)
             os.rename(tmp, libdir)
             log("built libast (%s) in %.1fs -> %s" % (" ".join(cflags[-3:]), time.time() - t0, libdir))
-            _prune("lib-", 12)
+            _prune("lib-", 120)
         else:
             os.utime(libdir)
     finally:
@@ -129,7 +129,7 @@ def build_harness(name, sources, libdir, cflags, extra=(), ldflags=(), link_lib=
                 raise Broken("harness compile failed: %s\n%s" % (" ".join(cmd), r.stderr[-4000:]))
             os.replace(exe + ".tmp%d" % os.getpid(), exe)
             old = sorted(glob.glob(os.path.join(BUILD, "bin", name + "-*")), key=os.path.getmtime, reverse=True)
-            for o in old[6:]:
+            for o in old[40:]:
                 try:
                     os.unlink(o)
                 except OSError:
